@@ -1,7 +1,7 @@
 (* C01 — serialise -> parse round trip (Stage A of DESIGN 3.3: token level; the tokenizer enters as the instance-checked
    lexer contract "handler calls on render l = chunk l").  Statements only; proofs in Proofs/RoundTripProofs.v. *)
 From AHP Require Import Model.Base Model.Str Model.Attr Model.Dom Model.Serial Model.Parser Model.RoundTrip Model.Search Model.Index Gen.Tables
-     Proofs.DomProofs Proofs.ParserProofs Proofs.RoundTripProofs Proofs.CloneProofs Proofs.IndexedParserProofs Proofs.FixPointProofs Proofs.ChunkedProofs Proofs.ChunkSpecProofs.
+     Proofs.DomProofs Proofs.ParserProofs Proofs.RoundTripProofs Proofs.CloneProofs Proofs.IndexedParserProofs Proofs.FixPointProofs Proofs.ChunkedProofs Proofs.ChunkSpecProofs Proofs.MultiRootProofs.
 
 (* serialisation is exactly the rendering of the tree's token list, for every tree *)
 Theorem C01_render_factor : forall t, outer_html t = render (toks_of t).
@@ -50,6 +50,36 @@ Proof. exact chunk_text_textlike. Qed.
 (* every run without "<" and "&" is complete (it is a single data piece) *)
 Theorem C01_plain_runs_complete : forall p, plain p = true -> complete p.
 Proof. exact plain_complete. Qed.
+(* multi-root documents: the tree is the invisible wrapper, getHTML prints its inner HTML; when the first pass over the real stream of
+   that string meets several top-level nodes (needs_second_pass: it raises MultipleRootNodeException), the wrapped second pass ends
+   with an invisible wrapper whose inner HTML - hence getHTML - is the identical string *)
+Theorem C01_multiroot_fixed_point : forall r, is_invisible r = true -> sc (hd_ r) = false ->
+  Forall InDom (tags_of (bs_ r)) -> Forall GoodTree (tags_of (bs_ r)) -> CompleteK false (bs_ r) "" ->
+  let ts := chunk (doc_ptoks r) "" in
+  needs_second_pass PPlain ts = true ->
+  exists s root, feed PPlain ts (wrap ts) = POk s /\ tree_of s = Some root /\ pstk s = [] /\ is_invisible root = true
+                 /\ inner_html root = inner_html r.
+Proof. exact multiroot_fixed_point. Qed.
+Definition C01_ex_multi := [TData "x "; TStart "a" [("id", Some "1")] false; TData "1"; TEnd "a"; TData " "; TStart "b" [] false; TEntity "amp"; TEnd "b"; TData "tail "].
+Example C01_ex_multiroot : exists s r, feed PPlain C01_ex_multi (wrap C01_ex_multi) = POk s /\ tree_of s = Some r /\ is_invisible r = true /\ sc (hd_ r) = false
+  /\ Forall InDom (tags_of (bs_ r)) /\ Forall GoodTree (tags_of (bs_ r)) /\ CompleteK false (bs_ r) ""
+  /\ needs_second_pass PPlain (chunk (doc_ptoks r) "") = true /\ inner_html r = "x <a id=""1"" >1</a> <b >&amp;</b>tail ".
+Proof.
+  destruct (feed PPlain C01_ex_multi (wrap C01_ex_multi)) as [s|] eqn:E; [|vm_compute in E; discriminate].
+  destruct (tree_of s) as [r|] eqn:Et.
+  2:{ vm_compute in E. inversion E; subst. vm_compute in Et. discriminate. }
+  exists s, r. split; [reflexivity|]. split; [exact Et|].
+  assert (Hg : GoodTree r).
+  { apply (parsed_good_tree PPlain C01_ex_multi (wrap C01_ex_multi) s r); auto; unfold C01_ex_multi; repeat constructor; vm_compute; auto. }
+  vm_compute in E. inversion E; subst. vm_compute in Et. inversion Et; subst. clear E Et.
+  split; [reflexivity|]. split; [reflexivity|]. split; [|split; [|split; [|split]]].
+  - repeat (constructor; simpl; auto); intros; try discriminate; auto.
+  - exact (GoodTree_children _ _ Hg).
+  - vm_compute. tauto.
+  - vm_compute. reflexivity.
+  - vm_compute. reflexivity.
+Qed.
+
 (* ... and so is every run that does not end in a bare "&" and in which every comment opener "<!--" is followed by a "-->"
    (in particular every run without a comment opener): references, lone "<" and "&", closed comments.  The two exclusions are
    exactly the runs of which the tokenizer keeps a piece buffered. *)
